@@ -933,6 +933,9 @@ func (in *Interp) mapFind(fr *frame, m *Map, key Value) *mapEntry {
 }
 
 func (in *Interp) mapStore(fr *frame, m *Map, key, val Value) {
+	if fr != nil {
+		in.onWrite(fr, &m.raceCell)
+	}
 	if e := in.mapFind(fr, m, key); e != nil {
 		e.v = val
 		return
@@ -946,6 +949,9 @@ func (in *Interp) mapStore(fr *frame, m *Map, key, val Value) {
 }
 
 func (in *Interp) mapDelete(fr *frame, m *Map, key Value) {
+	if fr != nil && m != nil {
+		in.onWrite(fr, &m.raceCell)
+	}
 	if e := in.mapFind(fr, m, key); e != nil {
 		e.deleted = true
 		m.n--
@@ -960,6 +966,9 @@ func (in *Interp) lookup(fr *frame, instr *ssa.Lookup, x, idx Value) Value {
 	vt := instr.X.Type().Underlying().(*types.Map).Elem()
 	var v Value
 	ok := false
+	if m != nil {
+		in.onRead(fr, &m.raceCell)
+	}
 	if m != nil && m.traced {
 		if k, isStr := idx.(Str); isStr && k.IsConcrete() {
 			if in.touched == nil {
@@ -1082,6 +1091,7 @@ func (in *Interp) rangeIter(fr *frame, x Value, t types.Type) Value {
 		if x == nil {
 			return &mapIter{kt: mt.Key(), vt: mt.Elem()}
 		}
+		in.onRead(fr, &x.raceCell)
 		return &mapIter{es: x.sortedEntries(), kt: mt.Key(), vt: mt.Elem()}
 	}
 	panic(fmt.Sprintf("range over %T", x))
